@@ -124,6 +124,7 @@ func scripted(prop string) func(r *ev.Run, tier string) (int64, int64) {
 			r.Count("records_checked_after_export_and_import", c19.ManyRecords(r, "C01"))
 		}
 		steps, vs := relay.ScriptedViolations(prop)
+		r.Note("scripted three-chain histories, every monitor and invariant after every step: module-level export/import of the packet state amid traffic; eleven packets in flight on one path; failing post-transaction hook; look-alike PacketSent logs; the v0.2 software upgrade; acknowledgements naming an empty relayer address; restart of the sending and of the receiving chain from the application's exported genesis (xibc, EVM and bank stores and the send counters must be what they were); a sender-named acknowledgement callback whose native action fails; tendermint clients with a 12 s delay period (every message offered one, two and three blocks after the update that makes it provable)")
 		for _, v := range vs {
 			r.Violation(v.Sig, v.Detail, map[string]interface{}{"engine": "bfs", "check": prop, "tier": "script", "history": v.History})
 		}
